@@ -4,11 +4,7 @@
 package main
 
 import (
-	"flag"
 	"fmt"
-	"os"
-	"runtime"
-	"runtime/pprof"
 	"sort"
 	"strings"
 	"time"
@@ -90,9 +86,6 @@ func (d *scenarioDef) build() *vs.Scenario {
 		}
 		return curGen.VerifStateHash()
 	}}, Body: func() { d.body() }}
-	if *flagHB {
-		sc.Cfg.StateHash = nil
-	}
 	return sc
 }
 
@@ -456,14 +449,20 @@ func sequential(r *report.Run) {
 	}
 }
 
-var (
-	flagOnly   = flag.String("only", "", "run only scenarios whose name contains this")
-	flagBudget = flag.Duration("budget", 0, "wall-clock budget per scenario (default 40s quick / 8m thorough)")
-	flagShards = flag.Int("shards", runtime.NumCPU(), "worker processes per scenario")
-	flagNoSeq  = flag.Bool("noseq", false, "skip the sequential part")
-	flagP      = flag.Int("p", -2, "override preemption bound")
-	flagHB     = flag.Bool("hb", false, "use happens-before fingerprints instead of observational state hashing")
-)
+func main() {
+	defsC := scenarios()
+	var defs []mcreport.Def
+	for i := range defsC {
+		d := &defsC[i]
+		defs = append(defs, mcreport.Def{Name: d.name, Build: d.build, Quick: vs.Bounds{P: d.p[0]}, Thorough: vs.Bounds{P: d.p[1]}})
+	}
+	mcreport.Main("C08", "model_checking",
+		"concurrent part: every interleaving, up to the stated preemption bound, of the atomic steps of the real internal/streams code for each listed thread program, with observational state caching; distinct = distinct observable histories per scenario. sequential part: every operation sequence up to the depth bound over {get, clear(4 tracked ids)} from a 3-free-ids state, both capacities",
+		[]string{"atomics are sequentially consistent (Go memory model); plain accesses are not scheduling points (checked by the separate -race pass)",
+			"'double release is harmless' is read as: releasing an id that is not currently handed out returns false and changes nothing; a second release racing a re-acquisition by another caller is outside the statement (DESIGN.md C08)",
+			"thread programs and free-id sets as listed under coverage.scenarios"},
+		defs, 40*time.Second, 8*time.Minute, sequential)
+}
 
 func contains(l []int, x int) bool {
 	for _, v := range l {
@@ -472,57 +471,4 @@ func contains(l []int, x int) bool {
 		}
 	}
 	return false
-}
-
-func main() {
-	defs := scenarios()
-	vs.ServeShard(func(name string) *vs.Scenario {
-		for i := range defs {
-			if defs[i].name == name {
-				return defs[i].build()
-			}
-		}
-		return nil
-	})
-	r := report.New("C08", "model_checking")
-	if f := os.Getenv("VERIF_CPUPROFILE"); f != "" {
-		pf, _ := os.Create(f)
-		pprof.StartCPUProfile(pf)
-		defer pprof.StopCPUProfile()
-	}
-	r.SetRule("concurrent part: every interleaving (up to the stated preemption bound; -1 = all) of the atomic steps of the real internal/streams code for each listed thread program, happens-before state caching; distinct = distinct observable histories per scenario. sequential part: every operation sequence up to the depth bound over {get, clear(4 tracked ids)} from a 3-free-ids state, both capacities")
-	r.Assume("atomics are sequentially consistent (Go memory model); plain accesses are not scheduling points (checked by the separate -race pass)",
-		"'double release is harmless' is read as: releasing an id that is not currently handed out returns false and changes nothing; a second release racing a re-acquisition by another caller is outside the statement (DESIGN.md C08)",
-		"thread programs and free-id sets as listed under coverage.scenarios")
-	if !*flagNoSeq {
-		sequential(r)
-	}
-	c := mcreport.New(r)
-	tier := 0
-	budget := 40 * time.Second
-	if r.Thorough() {
-		tier = 1
-		budget = 8 * time.Minute
-	}
-	if *flagBudget > 0 {
-		budget = *flagBudget
-	}
-	for i := range defs {
-		if *flagOnly != "" && !strings.Contains(defs[i].name, *flagOnly) {
-			continue
-		}
-		sc := defs[i].build()
-		sc.Bounds = vs.Bounds{P: defs[i].p[tier], D: 0, F: 0}
-		if *flagP > -2 {
-			sc.Bounds.P = *flagP
-		}
-		sc.Budget = budget
-		t0 := time.Now()
-		res := vs.ExploreSharded(sc, *flagShards)
-		fmt.Fprintf(os.Stderr, "%-40s %s exec=%d states=%d steps=%d pruned=%d outcomes=%d trunc=%v viol=%d %.1fs\n", sc.Name, res.Bounds, res.Executions, res.States, res.Steps, res.Pruned, len(res.Outcomes), res.Truncated, len(res.Violations), time.Since(t0).Seconds())
-		c.Add(res)
-	}
-	rc := c.Finish()
-	pprof.StopCPUProfile()
-	os.Exit(rc)
 }
